@@ -1101,6 +1101,10 @@ impl Ctx {
         if self.frozen {
             return;
         }
+        if self.panic_only && !what.contains("panicked") {
+            // C15 borrows other properties' sequence units: their semantic oracles are not C15's business
+            return;
+        }
         self.st.violations_total += 1;
         if self.st.violations.len() < MAX_VIOLATIONS_KEPT {
             let mut case = init.to_json();
